@@ -1,4 +1,4 @@
-import MpfVerif.Lemmas.Rules
+import MpfVerif.Lemmas.RulesCoils
 /-!
 # C10 — hardware switch-to-coil rules match the enabled devices exactly
 
@@ -97,14 +97,15 @@ theorem timeout_reenable_cancelled (c : Cfg) (s : St) (i : Nat) (ops : List Op)
 /-- **no_rules_outside_ball**: take any reachable state and an event that every device lists in its disable events
 and none in its enable events (MPF's defaults: `ball_will_end`, `service_mode_entered`; a tilt, a slam tilt and the
 end of the game reach `ball_will_end` through the game's `end_ball`).  After it, and through every later sequence of
-requests that enables nothing (no ball started), the table and the auxiliary handlers are empty and every device is
-disabled: cabinet buttons cannot fire coils. -/
+requests that enables nothing (no ball started), the table and the auxiliary handlers are empty, no coil is energised
+by a software command and every device is disabled: cabinet buttons cannot fire coils. -/
 theorem no_rules_outside_ball (c : Cfg) (hw : WF c) (pre ops : List Op) (e : Nat)
     (hd : ∀ i, i < c.n → (c.dev i).disEv.contains e = true)
     (hn : ∀ i, i < c.n → (c.dev i).enEv.contains e = false)
     (hq : ∀ op ∈ ops, ∀ i, i < c.n → enables c i op = false) :
     (run c (step c (run c init pre) (.ev e)) ops).table = [] ∧
     (run c (step c (run c init pre) (.ev e)) ops).aux = [] ∧
+    (run c (step c (run c init pre) (.ev e)) ops).on = [] ∧
     ∀ i, i < c.n → ((run c (step c (run c init pre) (.ev e)) ops).devs i).enabled = false := by
   have hoff : ∀ i, i < c.n → Off c (run c (step c (run c init pre) (.ev e)) ops) i := by
     intro i hi
@@ -114,7 +115,9 @@ theorem no_rules_outside_ball (c : Cfg) (hw : WF c) (pre ops : List Op) (e : Nat
     exact off_all_evStep c _ e hd hn i hi
   have hinv : Inv c (run c (step c (run c init pre) (.ev e)) ops) :=
     inv_run hw ops _ (inv_step hw _ _ (inv_run hw pre init (inv_init c)))
-  refine ⟨?_, ?_, fun i hi => (hoff i hi).1⟩
+  have hon : InvOn c (run c (step c (run c init pre) (.ev e)) ops) :=
+    invOn_run ops _ (invOn_step _ _ (invOn_run pre init (invOn_init c)))
+  refine ⟨?_, ?_, ?_, fun i hi => (hoff i hi).1⟩
   · apply List.eq_nil_iff_forall_not_mem.mpr
     intro x hx
     obtain ⟨i, hi, hen, _⟩ := hinv.sound x hx
@@ -125,30 +128,39 @@ theorem no_rules_outside_ball (c : Cfg) (hw : WF c) (pre ops : List Op) (e : Nat
     obtain ⟨i, hi, hen, _⟩ := hinv.auxSound x hx
     rw [(hoff i hi).1] at hen
     exact Bool.noConfusion hen
+  · apply List.eq_nil_iff_forall_not_mem.mpr
+    intro x hx
+    obtain ⟨i, hi, f, _, hen, _⟩ := hon x hx
+    rw [(hoff i hi).1] at hen
+    exact Bool.noConfusion hen
 
-/-- **coils_released_on_disable_partial**: `Flipper.disable()` switches off the main coil when the flipper was
-software-flipped or the software EOS repulse had enabled it, and the hold coil when it was software-flipped.
-Missing for the full statement "no flipper coil is energised outside a ball": the global invariant that a coil in
-`on` is always owed to one of these flags of an enabled flipper (checked by the oracle on the implementation). -/
-theorem coils_released_on_disable_partial (c : Cfg) (s : St) (i : Nat) (f : FCfg) (hk : (c.dev i).kind = .flipper f)
-    (hen : (s.devs i).enabled = true) :
-    (((s.devs i).swFlipped = true ∨ (s.devs i).repOn = true) → f.main ∉ (disableDev c s i).on) ∧
-    ((s.devs i).swFlipped = true → ∀ h, f.hold = some h → h ∉ (disableDev c s i).on) := by
-  unfold disableDev
-  simp only [hk, hen, if_true]
-  constructor
-  · intro hor
-    by_cases hsf : (s.devs i).swFlipped = true
-    · cases hh : f.hold <;> by_cases hr : (s.devs i).repOn = true <;>
-        simp [hsf, hr, swRelease, coilOff, upd, clearRules, hh, List.mem_filter]
-    · have hr : (s.devs i).repOn = true := by
-        rcases hor with h | h
-        · exact absurd h hsf
-        · exact h
-      simp [hsf, hr, coilOff, upd, clearRules, List.mem_filter]
-  · intro hsf h hh
-    by_cases hr : (s.devs i).repOn = true <;>
-      simp [hsf, hr, swRelease, coilOff, upd, clearRules, hh, List.mem_filter]
+/-- **no_coil_energised_when_disabled**: in every reachable state (any configuration, any op sequence) a coil that a
+software command has energised is owed to a flag of an *enabled* flipper: it is that flipper's main coil and the
+flipper is software-flipped or its software EOS repulse has enabled the coil, or it is its hold coil and the flipper is
+software-flipped.  Hence no coil is energised on behalf of a disabled flipper, and when every flipper is disabled no
+coil is energised at all. -/
+theorem no_coil_energised_when_disabled (c : Cfg) (ops : List Op) :
+    (∀ x ∈ (run c init ops).on, ∃ i f, i < c.n ∧ (c.dev i).kind = .flipper f ∧
+      ((run c init ops).devs i).enabled = true ∧
+      ((x = f.main ∧ (((run c init ops).devs i).swFlipped = true ∨ ((run c init ops).devs i).repOn = true)) ∨
+       (f.hold = some x ∧ ((run c init ops).devs i).swFlipped = true))) ∧
+    ((∀ i f, i < c.n → (c.dev i).kind = .flipper f → ((run c init ops).devs i).enabled = false) →
+      (run c init ops).on = []) := by
+  have h := invOn_run (c := c) ops init (invOn_init c)
+  have h1 : ∀ x ∈ (run c init ops).on, ∃ i f, i < c.n ∧ (c.dev i).kind = .flipper f ∧
+      ((run c init ops).devs i).enabled = true ∧
+      ((x = f.main ∧ (((run c init ops).devs i).swFlipped = true ∨ ((run c init ops).devs i).repOn = true)) ∨
+       (f.hold = some x ∧ ((run c init ops).devs i).swFlipped = true)) := by
+    intro x hx
+    obtain ⟨i, hi, f, hk, hen, ho⟩ := h x hx
+    exact ⟨i, f, hi, hk, hen, ho⟩
+  refine ⟨h1, ?_⟩
+  intro hall
+  apply List.eq_nil_iff_forall_not_mem.mpr
+  intro x hx
+  obtain ⟨i, f, hi, hk, hen, _⟩ := h1 x hx
+  rw [hall i f hi hk] at hen
+  exact Bool.noConfusion hen
 
 /-! ## the hypotheses are satisfiable: a dual-wound flipper with EOS switch and software repulse, an autofire with
 timeout protection and a kickback that disables itself on its fired event -/
@@ -168,5 +180,7 @@ example : ((run exCfg init [.ev 0, .hit 1, .hit 1, .advance 500]).table.map Entr
     [(0, 0), (1, 0), (0, 1), (3, 4), (2, 2)] := by decide +kernel
 example : ((run exCfg init [.ev 0, .hit 1, .hit 1, .hit 2, .ev 1, .advance 500]).table) = [] := by decide +kernel
 example : enables exCfg 1 (.advance 500) = false ∧ enables exCfg 1 (.hit 2) = false := by decide
+/-- software flip energises the hold coil of the dual-wound flipper; ball_will_end releases it -/
+example : (run exCfg init [.ev 0, .swFlip 0]).on = [1] ∧ (run exCfg init [.ev 0, .swFlip 0, .ev 1]).on = [] := by decide +kernel
 
 end MpfVerif.C10
